@@ -4,6 +4,7 @@ CONSTANTS
   Handles = {1, 2, 3, 4}
   MaxAbs = 1
   WithStreams = FALSE
+  WithNested = FALSE
   GenDepth = 99
 CONSTRAINT Small
 VIEW View_
